@@ -82,3 +82,157 @@ def valid_sequence(cfg, lines):
         except (IndexError, ValueError, KeyError):
             return False
     return True
+
+
+# ------------------------------------------------------------------------------------------ C15
+import hashlib
+import json
+import os
+import random
+import subprocess
+
+import runner
+
+PAIRS = [("u8", "u8"), ("u8", "i8"), ("i8", "u8"), ("u8", "c8"), ("c8", "u8"), ("b1", "c8"), ("b1", "u8"), ("u8", "b1"), ("c8", "b1"),
+         ("b1", "b1"), ("u16", "i16"), ("i16", "u16"), ("u16", "u8"), ("u8", "u16"), ("i16", "i8"), ("u32", "i32"), ("i32", "u32"),
+         ("u32", "u32"), ("u64", "i64"), ("i64", "u64"), ("u32", "f32"), ("f32", "u32"), ("f32", "i32"), ("f32", "f32"), ("f64", "f64"),
+         ("f64", "u64"), ("u8", "e8"), ("e8", "e8"), ("p64", "p64"), ("w1", "u8"), ("w1", "w1"), ("w4", "u32"), ("w4", "w4"),
+         ("u32", "conv"), ("conv", "conv"), ("cnt", "cnt"), ("cnt", "i32"), ("i32", "i16"), ("u64", "u32")]
+FORMS = ["vecL", "vecR", "listL", "listR", "arrL", "stdArrL", "genL", "ptr", "vecIt", "listIt", "moveIt"]
+RANGE_FORMS = {"vecL", "vecR", "listL", "listR", "arrL", "stdArrL", "genL"}
+BITS = {"u8": 8, "i8": 8, "c8": 8, "b1": 1, "u16": 16, "i16": 16, "u32": 32, "i32": 32, "u64": 64, "i64": 64, "e8": 8, "w1": 8, "w4": 32,
+        "conv": 32, "p64": 64}
+
+
+def c15_values(rng, u, t, n):
+    """source representations: include zero, one, values with the top bit set, values that do not fit the target"""
+    if u in ("f32", "f64"):
+        pool = [0, 1, 2, 7, 100, 1000]
+    elif u == "cnt":
+        pool = [1, 2, 3, 50, 1000]
+    elif u == "b1":
+        pool = [0, 1]
+    elif t in ("f32", "f64"):
+        pool = [0, 1, 2, 100, 4000]      # exactly representable, non-negative
+    elif u == "i32" and t == "cnt":
+        pool = [0, 1, 5, 70000]
+    else:
+        b = BITS[u]
+        pool = [0, 1, 2, 3, (1 << b) - 1, 1 << (b - 1), (1 << (b - 1)) + 5, 200 % (1 << b), 77]
+    return [rng.choice(pool) for _ in range(n)]
+
+
+def c15_cases(seed, tier):
+    rng = random.Random(seed * 2750159 + 15)
+    cases = []
+    for (t, u) in PAIRS:
+        for f in FORMS:
+            if f == "vecIt" and u == "b1":
+                continue  # the stand-in container for bool hands out raw pointers: same as form `ptr`
+            if f == "genL" and u == "cnt":
+                continue  # the generating iterator returns temporaries: their moves are not moves from the source
+            for kind in ("f", "v"):
+                if kind == "v" and f not in RANGE_FORMS:
+                    continue  # an iterator needs the fixed size
+                lens = [3] if f in ("arrL", "stdArrL") else ([0, 1, 3] if tier == "quick" else [0, 1, 2, 3, 5])
+                reps = 1 if tier == "quick" else 3
+                for n in lens:
+                    for _ in range(reps):
+                        vals = c15_values(rng, u, t, n)
+                        cases.append("emp %s %s %s %s %s" % (t, u, f, kind, ",".join(map(str, vals)) if vals else "-"))
+    return cases
+
+
+def build_single(src_name, out_name):
+    sh_ = runner.source_hash()
+    d = os.path.join(runner.CACHE, "s", sh_)
+    os.makedirs(d, exist_ok=True)
+    for other in os.listdir(os.path.join(runner.CACHE, "s")):
+        if other != sh_:
+            import shutil
+            shutil.rmtree(os.path.join(runner.CACHE, "s", other), ignore_errors=True)
+    b = os.path.join(d, out_name)
+    if os.path.exists(b):
+        return b, None
+    r = runner.sh(["g++"] + runner.CXXFLAGS + [os.path.join(runner.HARNESS, src_name), "-o", b + ".tmp"])
+    if r.returncode != 0:
+        return None, r.stdout
+    os.rename(b + ".tmp", b)
+    return b, None
+
+
+def line_protocol_compare(binary, lines, cfg_line=None):
+    """run both sides on the same lines; returns (groups_impl, groups_model, abort)"""
+    rc, out, err = runner.run_impl(binary, lines, timeout=300)
+    inp = ((cfg_line + "\n") if cfg_line else "") + "\n".join(lines) + "\n"
+    m = subprocess.run([runner.DRIVER], input=inp, stdout=subprocess.PIPE, stderr=subprocess.PIPE, text=True, timeout=300)
+    return runner.split_ops(out), runner.split_ops(m.stdout), (runner.abort_kind(err), err[-1500:]) if rc != 0 else None
+
+
+def write_replay_special(prop, tier, seed, kind, lines, detail):
+    root = runner.ROOT
+    body = {"property": prop, "tier": tier, "seed": seed, "kind": kind, "cfg": None, "ops": lines, "detail": detail,
+            "repro": "./check %s --replay <this file>" % prop}
+    h = hashlib.sha256(json.dumps(body, sort_keys=True).encode()).hexdigest()[:10]
+    path = os.path.join(root, "replays", "%s-%s.json" % (prop, h))
+    os.makedirs(os.path.dirname(path), exist_ok=True)
+    with open(path, "w") as f:
+        json.dump(body, f, indent=1)
+    return path
+
+
+def generic_lines_check(prop, tier, seed, replay, binary_src, binary_name, cases, tag):
+    res = {"violations": [], "known": [], "coverage": {}}
+    if replay:
+        cases = json.load(open(replay))["ops"]
+    binary, err = build_single(binary_src, binary_name)
+    if binary is None:
+        path = write_replay_special(prop, tier, seed, "no-failing-input-found", [], {"harness-does-not-compile": err[-3000:]})
+        res["violations"].append((path, " no-failing-input-found"))
+        return res
+    ok, _ = runner.build_lean()
+    gi, gm, abort = line_protocol_compare(binary, cases) if ok else (runner.split_ops(runner.run_impl(binary, cases, 300)[1]), [], None)
+    viol = []
+    div = []
+    for idx, (op, obs) in enumerate(gi):
+        for l in obs:
+            if l.startswith("!viol " + tag):
+                viol.append((op, l[6:]))
+        if ok and idx < len(gm):
+            oi = [l for l in obs if not l.startswith("!viol") and not l.startswith("#")]
+            om = [l for l in gm[idx][1] if not l.startswith("#")]
+            if oi != om:
+                div.append((op, oi, om))
+    seen = set()
+    for (op, txt) in viol:
+        key = txt.split(" ")[0]
+        if key in seen:
+            continue
+        seen.add(key)
+        path = write_replay_special(prop, tier, seed, "failing-input", [op], {"violation": txt})
+        res["violations"].append((path, ""))
+    if abort and not viol:
+        path = write_replay_special(prop, tier, seed, "failing-input", cases[: len(gi)][-3:], {"abort": abort[0], "stderr": abort[1]})
+        res["violations"].append((path, ""))
+    if div and not viol and not abort:
+        path = write_replay_special(prop, tier, seed, "no-failing-input-found", [div[0][0]],
+                                    {"correspondence": {"op": div[0][0], "impl": div[0][1], "model": div[0][2]},
+                                     "divergent_cases": len(div), "searched": "monitors over %d cases" % len(gi)})
+        res["violations"].append((path, " no-failing-input-found"))
+    res["coverage"] = {"evaluations": len(gi), "distinct_nontrivial": len(set(cases)), "samples": [{"case": c} for c in cases[:4]],
+                       "divergences": len(div), "monitor_hits": len(viol)}
+    return res
+
+
+def special_c15(tier, seed, replay):
+    cases = c15_cases(seed, tier)
+    res = generic_lines_check("C15", tier, seed, replay, "emplace_matrix.cpp", "emplace_matrix", cases, "C15")
+    forms = {}
+    for c in cases:
+        forms[c.split()[3]] = forms.get(c.split()[3], 0) + 1
+    res["coverage"]["forms"] = forms
+    res["coverage"]["type_pairs"] = len(PAIRS)
+    return res
+
+
+SPECIAL["C15"] = special_c15
